@@ -5,12 +5,21 @@
   are reported as the pair (raw integer, scale) where the raw integer is the two's-complement
   (resp. unsigned) reading of the field's own bits at its specified position, for every bit pattern
   including the most negative one, and the scale is the one the statement names.
-  What is not proved (Lean's `Float32` is opaque to the kernel): the IEEE-754 rounding of
-  `raw as f32 / scale`.  That part is covered by the correspondence (bit-for-bit comparison with
-  the same operations evaluated on `Float32` by the driver, and an exact rational check).
+  The IEEE-754 rounding of `raw as f32 / scale` (second half of this file): Lean's `Float32` is opaque
+  to the kernel, so the model computes the reported bit pattern with a software binary32
+  (`Model/F32.lean`: `i32 as f32`, `/`, `*`, round to nearest even, on `Nat`), `FOp.bits raw op`.  Proved:
+  the pattern is finite and denotes the exact quantity `raw/600000`, `raw/600`, `raw/10`, `raw` up to
+  the single-precision roundings the expression performs — exact for the undivided quantities,
+  correctly rounded (relative error ≤ 2^-24, one rounding) for every field of at most 24 bits, and
+  within 2^-23 + 2^-48 (two roundings: conversion of the 28/27-bit integer, then the division; for
+  type 27 the division and the multiplication) otherwise — for every raw value, the most negative
+  one included.  That the software binary32 is what the hardware computes is tied on every run: the
+  driver prints `FOp.bits`, the correspondence compares it with Rust's `to_bits()` bit for bit
+  (exhaustively over all raw values of every scaled field in the sweeps).
 -/
 import AisVerif.Lemmas.Char
 import AisVerif.Spec.Layouts
+import AisVerif.Lemmas.F32
 
 namespace AisVerif.C10
 open AisVerif Spec
@@ -129,5 +138,186 @@ theorem t27 (cfg : Cfg) (bs : List UInt8) (m : Msg) (ht : field bs 0 6 = 27)
   unfold Spec.decodeT27
   simp only [ht, if_true]
   scaled_rfl
+
+
+/-! ### The reported `f32` -/
+
+open F32
+
+/-- Magnitude of the raw integer of a scaled field: below `2^w`, whatever the bits. -/
+theorem raw_natAbs_lt (e : ScaledSpec) (bs : List UInt8) (hw : 0 < e.w) : (e.raw bs).natAbs < 2 ^ e.w + 1 := by
+  have hf : field bs e.off e.w < 2 ^ e.w := field_lt _ _ _
+  unfold ScaledSpec.raw
+  split
+  · obtain ⟨h1, h2, _, _⟩ := toSigned_spec e.w _ hw hf
+    have : (2 : Int) ^ (e.w - 1) ≤ 2 ^ e.w := by
+      have : (2 : Nat) ^ (e.w - 1) ≤ 2 ^ e.w := Nat.pow_le_pow_right (by decide) (by omega)
+      exact_mod_cast this
+    have h3 : ((2 ^ e.w : Nat) : Int) = 2 ^ e.w := by push_cast; rfl
+    omega
+  · omega
+
+theorem within_mono {b : Nat} {x ε ε' : ℚ} (h : Within b x ε) (hle : ε ≤ ε') : Within b x ε' := by
+  obtain ⟨⟨δ, hδ, hv⟩, h1, h2⟩ := h
+  exact ⟨⟨δ, le_trans hδ hle, hv⟩, h1, h2⟩
+
+theorem intCast_bounds (raw : Int) (n : Nat) (h : raw.natAbs < 2 ^ n + 1) (hn : n ≤ 64) :
+    (raw : ℚ) = 0 ∨ ((2 : ℚ) ^ (-40 : Int) ≤ |(raw : ℚ)| ∧ |(raw : ℚ)| ≤ 2 ^ (64 : Int)) := by
+  by_cases h0 : raw = 0
+  · left; exact_mod_cast h0
+  · right
+    have h1 : (1 : ℚ) ≤ |(raw : ℚ)| := by
+      have : 1 ≤ |raw| := Int.one_le_abs h0
+      exact_mod_cast this
+    have h2 : |(raw : ℚ)| ≤ 2 ^ (64 : Int) := by
+      have hp : (2 : Nat) ^ n ≤ 2 ^ 64 := Nat.pow_le_pow_right (by decide) hn
+      have : |raw| ≤ ((2 ^ 64 : Nat) : Int) := by
+        have : (|raw| : Int) = raw.natAbs := Int.abs_eq_natAbs raw
+        omega
+      have h3 : ((|raw| : Int) : ℚ) ≤ (((2 ^ 64 : Nat) : Int) : ℚ) := by exact_mod_cast this
+      have h4 : (((2 ^ 64 : Nat) : Int) : ℚ) = 2 ^ (64 : Int) := by norm_num
+      rw [← h4]; simpa using h3
+    refine ⟨?_, h2⟩
+    have : (2 : ℚ) ^ (-40 : Int) ≤ 1 := by norm_num
+    linarith
+
+/-- Undivided quantities (SAR-aircraft speed, type-27 speed and course) are reported **exactly**. -/
+theorem bits_ident (raw : Int) (h : raw.natAbs < 2 ^ 24) : toRat (FOp.bits raw .ident) = FOp.exact raw .ident := by
+  exact (ofInt_exact raw h).1
+
+/-- A field of at most 24 bits divided by 10, 600 or 600000: the conversion is exact, so the reported
+    `f32` is the **correctly rounded** quotient (one rounding, relative error at most `2^-24`). -/
+theorem bits_div_narrow (raw : Int) (h : raw.natAbs < 2 ^ 24) (op : FOp)
+    (hop : op = .div10 ∨ op = .div600 ∨ op = .div600000) :
+    Within (FOp.bits raw op) (FOp.exact raw op) (2 ^ (-24 : Int)) := by
+  obtain ⟨hv, hlt, hf⟩ := ofInt_exact raw h
+  have hw := within_of_exact hv hlt hf
+  have hb := intCast_bounds raw 24 (by omega) (by decide)
+  have e0 : (0 : ℚ) + 2 ^ (-24 : Int) + 0 * 2 ^ (-24 : Int) = 2 ^ (-24 : Int) := by ring
+  rcases hop with rfl | rfl | rfl
+  · have := div_const_within _ _ 0 10 (by decide) (by decide) hw (by norm_num) hb
+    rw [e0] at this; exact this
+  · have := div_const_within _ _ 0 600 (by decide) (by decide) hw (by norm_num) hb
+    rw [e0] at this; exact this
+  · have := div_const_within _ _ 0 600000 (by decide) (by decide) hw (by norm_num) hb
+    rw [e0] at this; exact this
+
+/-- The 28- and 27-bit coordinates: `raw as f32` rounds once (above `2^24`), the division once more. -/
+theorem bits_div600000_wide (raw : Int) (h : raw.natAbs < 2 ^ 28 + 1) :
+    Within (FOp.bits raw .div600000) (FOp.exact raw .div600000) (2 ^ (-23 : Int) + 2 ^ (-48 : Int)) := by
+  have ha := (ofInt_approx raw (by
+    have : (2 : Nat) ^ 28 + 1 ≤ 2 ^ 127 := by decide
+    omega)).within
+  have hb := intCast_bounds raw 28 h (by decide)
+  have := div_const_within _ _ _ 600000 (by decide) (by decide) ha (by norm_num) hb
+  refine within_mono this ?_
+  norm_num
+
+/-- Type 27: `(raw as f32 / 600000.0) * 1000.0` — exact conversion, two roundings — denotes `raw / 600`. -/
+theorem bits_t27 (raw : Int) (h : raw.natAbs < 2 ^ 18 + 1) :
+    Within (FOp.bits raw .div600000mul1000) (FOp.exact raw .div600000mul1000) (2 ^ (-23 : Int) + 2 ^ (-48 : Int)) := by
+  obtain ⟨hv, hlt, hf⟩ := ofInt_exact raw (by
+    have : (2 : Nat) ^ 18 + 1 ≤ 2 ^ 24 := by decide
+    omega)
+  have hw := within_of_exact hv hlt hf
+  have hb := intCast_bounds raw 18 h (by decide)
+  have h1 := div_const_within _ _ 0 600000 (by decide) (by decide) hw (by norm_num) hb
+  have hA : (raw : ℚ) / ((600000 : Int) : ℚ) = 0 ∨
+      ((2 : ℚ) ^ (-40 : Int) ≤ |(raw : ℚ) / ((600000 : Int) : ℚ)| ∧ |(raw : ℚ) / ((600000 : Int) : ℚ)| ≤ 2 ^ (64 : Int)) := by
+    rcases hb with hb | ⟨hb1, hb2⟩
+    · left; rw [hb]; simp
+    · right
+      have h1' : (1 : ℚ) ≤ |(raw : ℚ)| := by
+        by_contra hc
+        have h0 : raw = 0 := by
+          by_contra hne
+          have : 1 ≤ |raw| := Int.one_le_abs hne
+          have : (1 : ℚ) ≤ |(raw : ℚ)| := by exact_mod_cast this
+          exact hc this
+        rw [h0] at hb1; norm_num at hb1
+      rw [abs_div]
+      have : |(((600000 : Int) : ℚ))| = 600000 := by norm_num
+      rw [this]
+      constructor
+      · rw [le_div_iff₀ (by norm_num)]
+        have : (2 : ℚ) ^ (-40 : Int) * 600000 ≤ 1 := by norm_num
+        linarith
+      · rw [div_le_iff₀ (by norm_num)]
+        have : |(raw : ℚ)| ≤ 2 ^ (64 : Int) * 1 := by linarith
+        have h6 : (2 : ℚ) ^ (64 : Int) * 1 ≤ 2 ^ (64 : Int) * 600000 := by norm_num
+        linarith
+  have h2 := mul_const_within _ _ _ 1000 (by decide) (by decide) h1 (by norm_num) hA
+  have e : (raw : ℚ) / ((600000 : Int) : ℚ) * ((1000 : Int) : ℚ) = FOp.exact raw .div600000mul1000 := by
+    simp only [FOp.exact]; push_cast; ring
+  rw [e] at h2
+  refine within_mono h2 ?_
+  norm_num
+
+/-- **Every scaled field of every table**: whatever bits are transmitted (the most negative value
+    included), the reported `f32` is finite and denotes the field's exact value in degrees / knots /
+    metres up to the roundings of the single-precision expression — relative error at most
+    `2^-23 + 2^-48`; at most `2^-24` (correctly rounded) when the field has at most 24 bits and a single
+    division; none for the undivided quantities. -/
+def Scaled.all : List ScaledSpec :=
+  Scaled.t01 ++ Scaled.t04 ++ Scaled.t05 ++ Scaled.t09 ++ Scaled.t17 ++ Scaled.t18 ++ Scaled.t21 ++ Scaled.t27
+
+def tolerance (e : ScaledSpec) : ℚ :=
+  match e.op with
+  | .ident => 0
+  | .div600000mul1000 => 2 ^ (-23 : Int) + 2 ^ (-48 : Int)
+  | _ => if e.w ≤ 23 then 2 ^ (-24 : Int) else 2 ^ (-23 : Int) + 2 ^ (-48 : Int)
+
+theorem reported_general (e : ScaledSpec) (bs : List UInt8) (hw : 0 < e.w) (hw2 : e.w ≤ 28)
+    (h27 : e.op = .div600000mul1000 → e.w ≤ 18) (hid : e.op = .ident → e.w ≤ 23)
+    (hdiv : (e.op = .div10 ∨ e.op = .div600) → e.w ≤ 23) :
+    Within (FOp.bits (e.raw bs) e.op) (FOp.exact (e.raw bs) e.op) (tolerance e) := by
+  have hraw := raw_natAbs_lt e bs hw
+  have pw : ∀ {a b : Nat}, a ≤ b → (e.raw bs).natAbs < 2 ^ a + 1 → (e.raw bs).natAbs < 2 ^ b + 1 := by
+    intro a b hab h
+    have : (2 : Nat) ^ a ≤ 2 ^ b := Nat.pow_le_pow_right (by decide) hab
+    omega
+  have narrow : e.w ≤ 23 → (e.raw bs).natAbs < 2 ^ 24 := by
+    intro h
+    have := pw h hraw
+    simp only [Nat.reducePow] at *; omega
+  cases hop : e.op with
+  | ident =>
+    have ht : tolerance e = 0 := by simp [tolerance, hop]
+    rw [ht]
+    have hn := narrow (hid hop)
+    exact within_of_exact (bits_ident _ hn) (ofInt_exact _ hn).2.1 (ofInt_exact _ hn).2.2
+  | div600000mul1000 =>
+    have ht : tolerance e = 2 ^ (-23 : Int) + 2 ^ (-48 : Int) := by simp [tolerance, hop]
+    rw [ht]
+    exact bits_t27 _ (pw (h27 hop) hraw)
+  | div10 =>
+    have ht : tolerance e = 2 ^ (-24 : Int) := by simp [tolerance, hop, hdiv (Or.inl hop)]
+    rw [ht]
+    exact bits_div_narrow _ (narrow (hdiv (Or.inl hop))) _ (Or.inl rfl)
+  | div600 =>
+    have ht : tolerance e = 2 ^ (-24 : Int) := by simp [tolerance, hop, hdiv (Or.inr hop)]
+    rw [ht]
+    exact bits_div_narrow _ (narrow (hdiv (Or.inr hop))) _ (Or.inr (Or.inl rfl))
+  | div600000 =>
+    by_cases h : e.w ≤ 23
+    · have ht : tolerance e = 2 ^ (-24 : Int) := by simp [tolerance, hop, h]
+      rw [ht]
+      exact bits_div_narrow _ (narrow h) _ (Or.inr (Or.inr rfl))
+    · have ht : tolerance e = 2 ^ (-23 : Int) + 2 ^ (-48 : Int) := by simp [tolerance, hop, h]
+      rw [ht]
+      exact bits_div600000_wide _ (pw hw2 hraw)
+
+theorem reported_f32 (e : ScaledSpec) (he : e ∈ Scaled.all) (bs : List UInt8) :
+    Within (FOp.bits (e.raw bs) e.op) (FOp.exact (e.raw bs) e.op) (tolerance e) := by
+  simp only [Scaled.all, Scaled.t01, Scaled.t04, Scaled.t05, Scaled.t09, Scaled.t17, Scaled.t18, Scaled.t21,
+    Scaled.t27, sog10, lon28, lat27, cog12, List.cons_append, List.nil_append, List.mem_cons,
+    List.not_mem_nil, or_false] at he
+  rcases he with rfl | rfl | rfl | rfl | rfl | rfl | rfl | rfl | rfl | rfl | rfl | rfl | rfl | rfl | rfl | rfl | rfl |
+    rfl | rfl | rfl | rfl | rfl | rfl <;>
+    exact reported_general _ bs (by decide) (by decide) (by decide) (by decide) (by decide)
+
+/-- Non-vacuity and a hand-checkable instance: 2^27 in a 28-bit longitude is the most negative value,
+    −2^27/600000 degrees, and the reported pattern is the single-precision number nearest to it. -/
+example : FOp.bits (toSigned 28 (2 ^ 27)) .div600000 = 0xC35FB23B := by decide +kernel
 
 end AisVerif.C10
